@@ -1,10 +1,12 @@
 package logging
 
 import (
+	"bufio"
 	"context"
 	"crypto/rand"
 	"encoding/hex"
 	"fmt"
+	"net"
 	"net/http"
 	"strings"
 	"time"
@@ -27,10 +29,75 @@ func RequestContextMiddleware(cfg config.LoggingConfig) func(http.Handler) http.
 			logger := enrichLogger(ctx, requestID, traceID)
 
 			ctx = contextWithLogger(ctx, logger, requestID, traceID)
+
+			// The identifiers were put on the response header map above, but a
+			// handler further down may reset that map before the final header
+			// is written (httputil.ReverseProxy clears it after relaying a 1xx
+			// interim response), so they are applied again when the final
+			// header goes out.
+			ids := map[string]string{}
+			if requestID != "" {
+				ids[requestHeader] = requestID
+			}
+			if traceID != "" {
+				ids[traceHeader] = traceID
+			}
+			if len(ids) > 0 {
+				w = &identifierResponseWriter{ResponseWriter: w, ids: ids}
+			}
 			next.ServeHTTP(w, r.WithContext(ctx))
 		})
 	}
 }
+
+// identifierResponseWriter re-applies the request/trace identifier headers
+// right before the final response header is written.
+type identifierResponseWriter struct {
+	http.ResponseWriter
+	ids     map[string]string
+	applied bool
+}
+
+func (iw *identifierResponseWriter) apply() {
+	if iw.applied {
+		return
+	}
+	iw.applied = true
+	for header, value := range iw.ids {
+		iw.ResponseWriter.Header().Set(header, value)
+	}
+}
+
+func (iw *identifierResponseWriter) WriteHeader(code int) {
+	if code >= 200 { // 1xx responses are interim: the final header is still to come
+		iw.apply()
+	}
+	iw.ResponseWriter.WriteHeader(code)
+}
+
+func (iw *identifierResponseWriter) Write(b []byte) (int, error) {
+	iw.apply()
+	return iw.ResponseWriter.Write(b)
+}
+
+// Flush implements http.Flusher.
+func (iw *identifierResponseWriter) Flush() {
+	iw.apply()
+	if f, ok := iw.ResponseWriter.(http.Flusher); ok {
+		f.Flush()
+	}
+}
+
+// Hijack implements http.Hijacker (WebSocket upgrades pass through this middleware).
+func (iw *identifierResponseWriter) Hijack() (net.Conn, *bufio.ReadWriter, error) {
+	if h, ok := iw.ResponseWriter.(http.Hijacker); ok {
+		return h.Hijack()
+	}
+	return nil, nil, http.ErrNotSupported
+}
+
+// Unwrap lets http.ResponseController reach the underlying writer.
+func (iw *identifierResponseWriter) Unwrap() http.ResponseWriter { return iw.ResponseWriter }
 
 func handleRequestID(r *http.Request, w http.ResponseWriter, cfg config.LoggingConfig, header string) string {
 	if !cfg.RequestID.Enabled {
